@@ -362,12 +362,19 @@ func (self *Node) attachToFileParents(fileParents map[Nodable]map[string]syntax.
 	for prenode, boundArgs := range fileParents {
 		for _, fork := range prenode.getNode().forks {
 			if setNode != nil {
+				// Each fork gets its own copy: arguments are removed from
+				// it when the outputs of that fork turn out not to contain
+				// any files, which says nothing about the other forks.
+				forkArgs := make(map[string]syntax.Type, len(boundArgs))
+				for arg, t := range boundArgs {
+					forkArgs[arg] = t
+				}
 				if pNodeFiles := fork.filePostNodes; pNodeFiles == nil {
 					fork.filePostNodes = map[Nodable]map[string]syntax.Type{
-						self: boundArgs,
+						self: forkArgs,
 					}
 				} else {
-					pNodeFiles[self] = boundArgs
+					pNodeFiles[self] = forkArgs
 				}
 			}
 			pArgs := fork.fileArgs
